@@ -49,6 +49,22 @@ Proof.
     (split; [split; intros _; reflexivity | intros H; discriminate H]).
 Qed.
 
+Theorem should_write_spec w c :
+  should_write w c = true <->
+  c_proto c = Older /\ dest w c <> None /\ ~ (c_inplace c = true /\ c_output c <> None).
+Proof.
+  unfold should_write. rewrite !andb_true_iff, negb_true_iff. split.
+  - intros [[P D] B]. repeat split.
+    + destruct (c_proto c); (reflexivity || discriminate).
+    + destruct (dest w c); discriminate.
+    + intros [I O]. rewrite I in B. destruct (c_output c); [discriminate B | apply O; reflexivity].
+  - intros (P & D & B). repeat split.
+    + rewrite P. reflexivity.
+    + destruct (dest w c); [reflexivity | exfalso; apply D; reflexivity].
+    + destruct (c_inplace c); [|reflexivity].
+      destruct (c_output c); [exfalso; apply B; split; [reflexivity | discriminate] | reflexivity].
+Qed.
+
 (* in every non-writing case nothing at all is changed, at any moment *)
 Theorem update_nowrite_inert e w c :
   should_write w c = false ->
